@@ -171,11 +171,11 @@ pub fn observe<T: Copy + Bits>(b: &Arc<Buffer<T>>, spec: &Spec<T>) {
     {
         let s = r.slice();
         for i in 0..spec.fifo.len() {
-            assert!(s[i].bits_eq(&spec.fifo[i]), "read window sample differs from committed sample");
+            assert!(s[i].exact_eq(&spec.fifo[i]), "read window sample differs from committed sample");
             // Both aliases agree on every buffered sample.
             let a = (rs + i) % cap;
-            assert!(acc::peek_raw(b, a).bits_eq(&spec.fifo[i]), "alias (low) differs");
-            assert!(acc::peek_raw(b, a + cap).bits_eq(&spec.fifo[i]), "alias (high) differs");
+            assert!(acc::peek_raw(b, a).exact_eq(&spec.fifo[i]), "alias (low) differs");
+            assert!(acc::peek_raw(b, a + cap).exact_eq(&spec.fifo[i]), "alias (high) differs");
         }
     }
     let exp = spec.expected_tags();
@@ -358,4 +358,320 @@ pub fn refuse<T: Copy + Bits + SymVal>(cap: usize, rpos: usize, used: usize, op:
     let _ = &mut spec;
     std::mem::forget(b);
     std::mem::forget(spec);
+}
+
+// ---------------------------------------------------------------------------------
+// C03: atomicity of each operation w.r.t. a concurrent peer, window disjointness,
+// window ceiling.
+// ---------------------------------------------------------------------------------
+use std::sync::atomic::{AtomicUsize, Ordering};
+const C03_BASE: usize = 0x6c33_0000_0000_0303;
+static C03_PEER: AtomicUsize = AtomicUsize::new(C03_BASE);
+
+/// Peer of the thread under observation.  At every scheduling point (lock / unlock of
+/// the state mutex) it may perform one enabled operation of the *other* side.
+struct Peer3<T: Copy> {
+    ring: *const Buffer<T>,
+    /// true: the observed op is a reader-side op, so the peer is the writer.
+    peer_is_writer: bool,
+    busy: bool,
+    /// ops the peer performed before the observed critical section / after it
+    pre: usize,
+    post: usize,
+    locked_seen: usize,
+    in_section: bool,
+    val_pre: T,
+    val_post: T,
+}
+
+fn peer3_env<T: Copy + Bits + SymVal>(id: u32) {
+    let p = unsafe { &mut *(C03_PEER.load(Ordering::SeqCst).wrapping_sub(C03_BASE) as *mut Peer3<T>) };
+    if p.busy {
+        return;
+    }
+    p.busy = true;
+    // SAFETY: the ring outlives the harness body.
+    let ring = unsafe { &*p.ring };
+    if id == rustradio::verif::YP_LOCK {
+        p.locked_seen += 1;
+    }
+    let before = id == rustradio::verif::YP_LOCK && p.locked_seen == 1;
+    let after = id == rustradio::verif::YP_UNLOCK;
+    let act: bool = any();
+    if act && !acc::is_locked(ring) && ((before && p.pre == 0) || (after && p.post == 0)) {
+        let (_, _, used, cap) = acc::state(ring);
+        if p.peer_is_writer {
+            if used < cap {
+                // commit one symbolic sample
+                let (_, wpos, _, _) = acc::state(ring);
+                let v = if before { p.val_pre } else { p.val_post };
+                acc::poke_one(ring, wpos, v);
+                acc::produce(ring, 1, &[]);
+                if before { p.pre = 1 } else { p.post = 1 }
+            }
+        } else if used > 0 {
+            acc::consume(ring, 1);
+            if before { p.pre = 1 } else { p.post = 1 }
+        }
+    }
+    p.busy = false;
+}
+
+pub const A_FREE: u8 = 0;
+pub const A_READ_BUF: u8 = 1;
+pub const A_WRITE_BUF: u8 = 2;
+pub const A_CONSUME: u8 = 3;
+pub const A_PRODUCE: u8 = 4;
+
+/// C03(a): one operation of the real ring while a peer acts at the scheduling points
+/// around its critical section.  The result must be the spec step applied at the lock
+/// point, there must be exactly one critical section, and the final state must be the
+/// spec after (peer-before, op, peer-after).
+pub fn atomic_op<T: Copy + Bits + SymVal>(cap: usize, rpos: usize, used: usize, op: u8, n: usize) {
+    let (b, mut spec) = pre_state::<T>(cap, rpos, used, &[]);
+    let reader_side = op == A_READ_BUF || op == A_CONSUME;
+    let mut p = Peer3::<T> {
+        ring: &*b as *const Buffer<T>,
+        peer_is_writer: reader_side,
+        busy: false,
+        pre: 0,
+        post: 0,
+        locked_seen: 0,
+        in_section: false,
+        val_pre: any(),
+        val_post: any(),
+    };
+    C03_PEER.store((&mut p as *mut Peer3<T> as usize).wrapping_add(C03_BASE), Ordering::SeqCst);
+    let locks0 = rustradio::verif::LOCKS.load(Ordering::SeqCst);
+    rustradio::verif::set_yield_hook(Some(peer3_env::<T>));
+    // ---- the observed operation
+    let mut got_len = usize::MAX;
+    let mut got_free = usize::MAX;
+    let mut win = (0usize, 0usize);
+    let mut first: Option<T> = None;
+    match op {
+        A_FREE => got_free = b.free(),
+        A_READ_BUF => {
+            let (r, t) = match b.clone().read_buf() {
+                Ok(x) => x,
+                Err(e) => {
+                    std::mem::forget(e);
+                    panic!("read_buf failed");
+                }
+            };
+            std::mem::forget(t);
+            got_len = r.len();
+            win = acc::reader_bounds(&r);
+            if got_len > 0 {
+                first = Some(r.slice()[got_len - 1]);
+            }
+            rustradio::verif::set_yield_hook(None);
+            drop(r);
+        }
+        A_WRITE_BUF => {
+            let w = match b.clone().write_buf() {
+                Ok(x) => x,
+                Err(e) => {
+                    std::mem::forget(e);
+                    panic!("write_buf failed");
+                }
+            };
+            got_len = w.len();
+            win = acc::writer_bounds(&w);
+            rustradio::verif::set_yield_hook(None);
+            drop(w);
+        }
+        A_CONSUME => acc::consume(&b, n),
+        _ => {
+            // fill the samples to be committed first (no lock involved)
+            let (_, wpos, _, _) = acc::state(&b);
+            let mut data = Vec::with_capacity(SPEC_MAX);
+            for i in 0..n {
+                let v: T = any();
+                acc::poke_one(&b, (wpos + i) % (2 * cap), v);
+                data.push(v);
+            }
+            acc::produce(&b, n, &[]);
+            rustradio::verif::set_yield_hook(None);
+            // spec: peer-before (a consume), then the commit, then peer-after
+            if p.pre == 1 {
+                spec.consume(1);
+            }
+            spec.commit(&data, &[]);
+            if p.post == 1 {
+                spec.consume(1);
+            }
+            std::mem::forget(data);
+        }
+    }
+    rustradio::verif::set_yield_hook(None);
+    let locks = rustradio::verif::LOCKS.load(Ordering::SeqCst) - locks0;
+    // every peer operation is itself one critical section
+    assert!(locks == 1 + p.pre + p.post, "operation used more (or fewer) than one critical section");
+    // ---- expected result at the lock point
+    match op {
+        A_FREE => {
+            // peer is the reader: a consume before the lock frees one more slot
+            assert!(got_free == spec.free() + p.pre, "free() is not the value at its lock point");
+            if p.pre == 1 { spec.consume(1); }
+            if p.post == 1 { spec.consume(1); }
+        }
+        A_WRITE_BUF => {
+            assert!(got_len == spec.free() + p.pre, "write window length is not the free space at its lock point");
+            assert!(win.1 - win.0 == got_len);
+            if p.pre == 1 { spec.consume(1); }
+            if p.post == 1 { spec.consume(1); }
+        }
+        A_READ_BUF => {
+            if p.pre == 1 {
+                let d = [p.val_pre];
+                spec.commit(&d, &[]);
+            }
+            assert!(got_len == spec.fifo.len(), "read window length is not the buffered count at its lock point");
+            if got_len > 0 {
+                assert!(first.unwrap().exact_eq(&spec.fifo[got_len - 1]), "read window does not end with the last committed sample");
+            }
+            if p.post == 1 {
+                let d = [p.val_post];
+                spec.commit(&d, &[]);
+            }
+        }
+        A_CONSUME => {
+            if p.pre == 1 {
+                let d = [p.val_pre];
+                spec.commit(&d, &[]);
+            }
+            spec.consume(n);
+            if p.post == 1 {
+                let d = [p.val_post];
+                spec.commit(&d, &[]);
+            }
+        }
+        _ => {}
+    }
+    witness!("operation executed under a concurrent peer");
+    witness!(p.pre == 1, "OPTIONAL: peer acted before the critical section");
+    witness!(p.post == 1, "OPTIONAL: peer acted after the critical section");
+    observe(&b, &spec);
+    std::mem::forget(b);
+    std::mem::forget(spec);
+    std::mem::forget(p);
+}
+
+/// C03(b): live windows of the two sides never overlap, and what a live read window
+/// shows is not changed by the writer filling/committing its live window.
+pub fn live_windows<T: Copy + Bits + SymVal>(cap: usize, rpos: usize, used: usize, m: usize, n: usize) {
+    let (b, mut spec) = pre_state::<T>(cap, rpos, used, &[]);
+    // writer takes its window first (snapshot of the free region) ...
+    let mut w = match b.clone().write_buf() {
+        Ok(x) => x,
+        Err(e) => {
+            std::mem::forget(e);
+            panic!("write_buf failed");
+        }
+    };
+    let (ws, we) = acc::writer_bounds(&w);
+    // ... the reader consumes m and takes a new window while the write window is live
+    acc::consume(&b, m);
+    spec.consume(m);
+    let (r, t) = match b.clone().read_buf() {
+        Ok(x) => x,
+        Err(e) => {
+            std::mem::forget(e);
+            panic!("read_buf failed");
+        }
+    };
+    std::mem::forget(t);
+    let (rs, re) = acc::reader_bounds(&r);
+    // disjoint modulo capacity: no index of one window aliases an index of the other
+    for i in ws..we {
+        for j in rs..re {
+            assert!(i % cap != j % cap, "live write window and live read window expose the same memory");
+        }
+    }
+    // writer scribbles over its whole (stale) window and commits n <= its length
+    let wl = w.len();
+    let mut data = Vec::with_capacity(SPEC_MAX);
+    {
+        let s = w.slice();
+        for i in 0..wl {
+            let v: T = any();
+            s[i] = v;
+            if i < n {
+                data.push(v);
+            }
+        }
+    }
+    {
+        let s = r.slice();
+        assert!(s.len() == spec.fifo.len());
+        for i in 0..s.len() {
+            assert!(s[i].exact_eq(&spec.fifo[i]), "live read window changed while the writer filled its window");
+        }
+    }
+    w.produce(n, &[]);
+    spec.commit(&data, &[]);
+    {
+        // the old read window still shows exactly the samples it was captured over
+        let s = r.slice();
+        for i in 0..s.len() {
+            assert!(s[i].exact_eq(&spec.fifo[i]), "live read window changed by a commit");
+        }
+    }
+    drop(r);
+    witness!("windows checked");
+    observe(&b, &spec);
+    std::mem::forget(data);
+    std::mem::forget(b);
+    std::mem::forget(spec);
+}
+
+/// C03(c): with both stream ends and both windows alive a further window is refused.
+pub fn ceiling(read_side: bool) {
+    let (tx, rx) = rustradio::stream::verif_access::new_stream_sized::<u8>(2);
+    let w = match tx.write_buf() {
+        Ok(x) => x,
+        Err(e) => {
+            std::mem::forget(e);
+            return;
+        }
+    };
+    let r = match rx.read_buf() {
+        Ok(x) => x,
+        Err(e) => {
+            std::mem::forget(e);
+            return;
+        }
+    };
+    // four handles now: two ends + two windows
+    let refused = if read_side {
+        match rx.read_buf() {
+            Ok(x) => {
+                std::mem::forget(x);
+                false
+            }
+            Err(e) => {
+                std::mem::forget(e);
+                true
+            }
+        }
+    } else {
+        match tx.write_buf() {
+            Ok(x) => {
+                std::mem::forget(x);
+                false
+            }
+            Err(e) => {
+                std::mem::forget(e);
+                true
+            }
+        }
+    };
+    if !refused {
+        witness!("RETURNED: a third window on one stream was handed out");
+    }
+    std::mem::forget(w);
+    std::mem::forget(r);
+    std::mem::forget(tx);
+    std::mem::forget(rx);
 }
